@@ -19,6 +19,8 @@ RUN_PROFILES = {
     "parloop_mix": dict(w={"parloop": 4, "call": 4, "count": 3, "while": 1, "cond": 2, "parallel": 2, "service": 3},
                         imm=0.1, params=0.3, parloop_shapes="all", max_block=2, max_tasks=4),
     "junk": dict(junk=0.4, imm=0.1),
+    # identifiers across junk events and repeated start() calls in the middle of a run
+    "ids_junk": dict(junk=0.35, imm=0.2, w={"count": 3, "parallel": 2, "call": 2, "service": 4}),
     "uuid": dict(test_ids=False, imm=0.2, w={"count": 3, "parallel": 2, "parloop": 1}),
     "uuid_loops_calls": dict(test_ids=False, imm=0.2, max_depth=4, max_tasks=4,
                              w={"count": 4, "while": 1, "call": 5, "service": 3, "parallel": 1, "cond": 1}),
@@ -71,7 +73,7 @@ PROPS = {
                 profiles=["junk", "react_junk", "react"], quick=240, thorough=6000,
                 finding_profiles=["parloop_all"]),
     "C14": dict(kind="run", proj="P_ids", mon="mon_C14", property_files=("C14net",),
-                profiles=["uuid", "uuid_cond_loops", "uuid_loops_calls", "loops", "parloop", "parallel", "react_loops"], quick=240, thorough=6000,
+                profiles=["uuid", "uuid_cond_loops", "uuid_loops_calls", "loops", "parloop", "parallel", "react_loops", "ids_junk"], quick=240, thorough=6000,
                 finding_profiles=["parloop_all"]),
     "C15": dict(kind="run", proj="P_C15", mon="mon_true", property_files=("C15net",),
                 profiles=["params", "params_indexed", "hostile_append", "hostile_clear", "hostile_replace"],
